@@ -253,7 +253,9 @@ func (t *tgt) Evaluate(engine runner.Engine) (err error) {
 				if o.Objects[d] != nil {
 					want = o.Objects[d]
 				}
-				if r.Target != want && o.ResultMismatch == "" {
+				// (for a dependency that failed, a runner may hand over no target at all: the statement speaks of
+				// the outcome, and the outcome of a failed target is its error)
+				if r.Target != want && !(o.Outcome[d] != nil && r.Target == nil) && o.ResultMismatch == "" {
 					o.ResultMismatch = fmt.Sprintf("%s was handed target %v for %s, want the object LoadTarget returned (%v)", label(t.idx), r.Target, label(d), want)
 				}
 			}
